@@ -69,6 +69,7 @@ RetViol(e) ==
       crashed == Has(e, "panic") \/ Has(e, "hang")
   IN Check("C05", "no-panic-no-hang", ~crashed)
      \cup Check(x.prop, "returns-value-or-error-not-crash", ~crashed)
+     \cup (IF Has(e, "hang") /\ x.outcome = "timed" THEN Check(x.prop, "returns-by-deadline-plus-allowance", FALSE) ELSE {})
      \cup (IF crashed \/ ~Has(e, "err") THEN {}
            ELSE (IF x.outcome = "value"
                  THEN Check(x.prop, "succeeds-where-specification-has-a-result", ~e.err)
@@ -91,6 +92,9 @@ RetViol(e) ==
                             \cup Check(x.prop, "fields-equal-reference-decoding-of-one-repository-state",
                                        (Has(e, "value") /\ Len(e.value) = Len(want) /\ \A i \in 1..Len(want) : e.value[i].k = want[i].k)
                                           => \A i \in 1..Len(want) : Agrees(e.value[i].v, want[i].v)))
+                 ELSE IF x.outcome = "timed"
+                 THEN Check(x.prop, "returns-by-deadline-plus-allowance", e.ms <= x.deadlineMs + x.allowMs)
+                      \cup Check(x.prop, "error-unless-a-valid-response-was-obtained", x.mustErr => e.err)
                  ELSE IF x.outcome = "noerror" THEN Check(x.prop, "succeeds-where-specification-has-a-result", ~e.err)
                  ELSE IF x.outcome = "float"
                  THEN Check(x.prop, "succeeds-where-specification-has-a-result", ~e.err)
@@ -100,7 +104,7 @@ RetViol(e) ==
                 \cup (IF Has(x, "maxreqs") THEN Check(x.prop, "terminates-within-specified-requests", Len(reqs) <= x.maxreqs) ELSE {}))
 
 NewViol == LET e == Ev IN
-  IF e.ev = "tx" /\ incall THEN TxViol(e)
+  IF e.ev = "tx" /\ incall /\ ~(Has(info, "notx") /\ info.notx) THEN TxViol(e)
   ELSE IF e.ev = "ret" /\ Has(e, "exp") THEN RetViol(e)
   ELSE IF e.ev = "ret" THEN Check("C05", "no-panic-no-hang", ~Has(e, "panic") /\ ~Has(e, "hang"))
   ELSE IF e.ev \in {"harnessError", "prefixFailed"} THEN Check("HARNESS", e.ev, FALSE)
@@ -112,7 +116,7 @@ Step ==
                          /\ incall' = FALSE /\ fired' = {}
     [] e.ev = "call" -> /\ exp' = (IF Has(e, "exp") THEN e.exp ELSE NoRec) /\ reqs' = <<>> /\ incall' = TRUE /\ fired' = {}
                         /\ UNCHANGED <<info, seqN, ivs>>
-    [] e.ev = "tx" -> /\ reqs' = Append(reqs, Abstract(e))
+    [] e.ev = "tx" -> /\ reqs' = (IF Has(info, "notx") /\ info.notx THEN reqs ELSE Append(reqs, Abstract(e)))
                       /\ seqN' = (IF InSess THEN seqN + 1 ELSE seqN)
                       /\ ivs' = (IF InSess /\ Len(e.raw) >= 32 THEN ivs \cup {Sub(e.raw, 16, 32)} ELSE ivs)
                       /\ fired' = (IF Has(e, "rule") THEN fired \cup {e.rule} ELSE fired)
